@@ -83,6 +83,16 @@ Clause(i, cl, nn, old, new, seen) ==
                      bad == {st \in Stores(old[cl.pi]) :
                                 MomentOuts(cl.lhs, IterOuts(P, st)) # Eval(cl.rhsp, st)}
                  IN  IF bad = {} THEN OK ELSE Bad(i, cl, nn, CHOOSE st \in bad : TRUE)
+      [] cl.t = "recpts" ->       \* the same for a list of equations, sharing the successor computation
+            IF nn = 0 THEN Skip
+            ELSE LET P == Tr.progs[cl.pi]
+                     badAt(st) == LET outs == IterOuts(P, st)
+                                  IN  {e \in 1..Len(cl.eqs) :
+                                          MomentOuts(cl.eqs[e].lhs, outs) # Eval(cl.eqs[e].rhsp, st)}
+                     bad == {st \in Stores(old[cl.pi]) : badAt(st) # {}}
+                 IN  IF bad = {} THEN OK
+                     ELSE LET st == CHOOSE st \in bad : TRUE
+                          IN  Bad(i, cl, nn, [store |-> st, eqs |-> SetToSeq(badAt(st))])
       [] cl.t = "supp" ->         \* every value variable v holds at any point is in vals
             LET vals == {cl.vals[j].a : j \in 1..Len(cl.vals)}
                 bad  == Support(cl.v, seen[cl.pi]) \ vals
